@@ -574,7 +574,12 @@ func (s *factSub) apply(p string) string {
 			return lead + pr[1] + core[len(pr[0]):]
 		}
 	}
-	return p
+	// a path of the callee's frame that has no counterpart in the reporting frame must never compare equal to a path
+	// of that frame (SSA register names repeat across functions)
+	if strings.HasPrefix(core, "G:") || strings.HasPrefix(core, "C:") {
+		return p
+	}
+	return lead + "callee·" + core
 }
 
 func dominates(a, b *ssa.BasicBlock) bool { return a.Dominates(b) }
@@ -788,6 +793,32 @@ func postFacts(f Fact) []Fact {
 		return nil
 	}
 	sub := callSub(h, &call.Call)
+	// results: where every selected return yields the same (non-parameter) value for result #k, that value's path maps to
+	// the caller's extraction of result #k
+	if call.Referrers() != nil {
+		for _, r := range *call.Referrers() {
+			ex, isEx := r.(*ssa.Extract)
+			if !isEx {
+				continue
+			}
+			cp := ""
+			same := true
+			for _, ret := range returnsOf(h) {
+				if !sel(ret) || ex.Index >= len(ret.Results) {
+					continue
+				}
+				rp := trimAddr(accessPath(returnedValue(ret, ex.Index)))
+				if cp == "" {
+					cp = rp
+				} else if cp != rp {
+					same = false
+				}
+			}
+			if same && cp != "" && !strings.HasPrefix(cp, "P:") && !strings.HasPrefix(cp, "C:") {
+				sub.pairs = append(sub.pairs, [2]string{cp, trimAddr(accessPath(ex))})
+			}
+		}
+	}
 	var out []Fact
 	for _, g := range returnFacts(h, key, sel) {
 		if g.Sub != nil {
